@@ -43,9 +43,13 @@ func (m *Module) RunWorker(name string, fn func(context.Context) error) error {
 		return errNoModule
 	}
 
+	verifEvent("pre:inc:w", m.Name)
 	atomic.AddInt32(m.workerCnt, 1)
+	verifEvent("post", m.Name)
 	defer func() {
+		verifEvent("pre:dec:w", m.Name)
 		atomic.AddInt32(m.workerCnt, -1)
+		verifEvent("post", m.Name)
 		m.checkIfStopComplete()
 	}()
 
@@ -64,9 +68,13 @@ func (m *Module) StartServiceWorker(name string, backoffDuration time.Duration, 
 }
 
 func (m *Module) runServiceWorker(name string, backoffDuration time.Duration, fn func(context.Context) error) {
+	verifEvent("pre:inc:w", m.Name)
 	atomic.AddInt32(m.workerCnt, 1)
+	verifEvent("post", m.Name)
 	defer func() {
+		verifEvent("pre:dec:w", m.Name)
 		atomic.AddInt32(m.workerCnt, -1)
+		verifEvent("post", m.Name)
 		m.checkIfStopComplete()
 	}()
 
@@ -152,7 +160,9 @@ func (m *Module) startCtrlFn(name string, fn func() error) chan error {
 	// If no function is given, still act as if it was run.
 	if fn == nil {
 		// Signal finish.
+		verifEvent("pre:ctrlUnsetNil", m.Name)
 		m.ctrlFuncRunning.UnSet()
+		verifEvent("post", m.Name)
 		m.checkIfStopComplete()
 
 		// Report nil error and return.
@@ -161,7 +171,9 @@ func (m *Module) startCtrlFn(name string, fn func() error) chan error {
 	}
 
 	// Signal that a control function is running.
+	verifEvent("pre:ctrlSet", m.Name)
 	m.ctrlFuncRunning.Set()
+	verifEvent("post", m.Name)
 
 	// Start control function in goroutine.
 	go func() {
@@ -178,7 +190,9 @@ func (m *Module) startCtrlFn(name string, fn func() error) chan error {
 			}
 
 			// Signal finish.
+			verifEvent("pre:ctrlUnset", m.Name)
 			m.ctrlFuncRunning.UnSet()
+			verifEvent("post", m.Name)
 			m.checkIfStopComplete()
 
 			// Report the result last: once the caller has it, this goroutine does
